@@ -41,7 +41,8 @@ func (c13) ID() string { return "C13" }
 func (c13) Rule() string {
 	return "(A) every stream of lossless.Encode (predictor 1..7 and auto) and lossless14sv1.Encode is decoded by the independent T.81 Annex H decoder (H.1.2.1 first-row/first-column rules, modulo-2^16 differences, category 16 without bits): samples and header fields must equal the source; " +
 		"(B) conformant single-scan SOF3 streams from the independent encoder over predictor 1..7, P 2..16, components {1,3}, per-component table destinations 0..3, tables {Annex K luminance DC extended to 17 categories, per-image optimal (K.2), random valid canonical incl. 16-bit codes}, DHT before/after SOF, one or several DHT segments, optional APPn/COM, component ids 1..n / 0..n-1 / arbitrary: lossless.Decode (and lossless14sv1.Decode for predictor 1) must return the source. " +
-		"non-trivial: both codecs ran and the samples were compared; distinct = distinct descriptor"
+		"non-trivial: both codecs ran and the samples were compared; distinct = distinct descriptor" +
+		" (ffdense) 16-bit scans of 50 KB and more with a stuffed 0xFF every third byte at a drifting phase, both directions"
 }
 func (c13) Assumptions() []string {
 	return []string{"internal/ref/t81lossless.go is a correct reading of T.81 Annex H; it is validated in the prelude against itself, against the H.1.2.1 prediction rules on hand-computed cases and its streams pass the strict marker walker"}
@@ -222,6 +223,21 @@ func (c13) Build(tier string, seed uint64) []any {
 			cl := gen.Pick(r, "noise", "smooth", "runs")
 			cs = append(cs, &c13Case{Gen: "area", Dir: "A", W: g[0], H: g[1], C: 1, P: p, Sel: sel, Class: cl, CSeed: r.U64()})
 			cs = append(cs, &c13Case{Gen: "area", Dir: "B", W: g[0], H: g[1], C: 1, P: p, Sel: sel, Class: cl, CSeed: r.U64(), Td: []int{r.Intn(4)}, Table: "optimal", IDs: "std", Extra: "none"})
+		}
+	}
+	// (ffdense) long 16-bit scans with a stuffed 0xFF every third byte at a drifting phase, both
+	// directions (library stream -> reference decoder, reference stream -> library decoders)
+	nFF := 8
+	if th {
+		nFF = 80
+	}
+	for i := 0; i < nFF; i++ {
+		r := gen.Sub(seed, "C13", "ffdense", i)
+		w, h := 120+r.Intn(120), 120+r.Intn(120)
+		sel := gen.Pick(r, 1, 1, 2, 7, 8)
+		cs = append(cs, &c13Case{Gen: "ffdense", Dir: "A", W: w, H: h, C: 1, P: 16, Sel: sel, Class: "ffdense", CSeed: r.U64()})
+		if sel != 8 {
+			cs = append(cs, &c13Case{Gen: "ffdense", Dir: "B", W: w, H: h, C: 1, P: 16, Sel: sel, Class: "ffdense", CSeed: r.U64(), Td: []int{r.Intn(4)}, Table: "optimal", IDs: "std", Extra: "none"})
 		}
 	}
 	return cs
